@@ -17,6 +17,11 @@
                 case split on the gate counter j (same diff)
      fix_arg  : routed swap-type gates keep the arg_value of the input gate (SWAPalpha)
                 (fixes/C07-swapalpha-arg.diff)
+     fix_meas : to_chain_structure appends a non-gate operation (Measurement) itself instead of
+                wrapping it with add_gate (fixes/C07-measurement-passthrough.diff); only the
+                operation-level functions route_ops / adjacent_ops look at it
+     fix_adjpass : adjacent_gates keeps a gate it does not resolve instead of raising
+                NotImplementedError (fixes/C07-adjacent-gates-passthrough.diff)
    The theorems of Props/C07.v are about `fixed`; the `_refuted` theorems are about `orig`. *)
 From Coq Require Import ZArith List String Bool.
 Import ListNotations.
@@ -32,9 +37,11 @@ Record gate := mkGate {
 
 Inductive topo := Linear | Circular.
 
-Record cfg := mkCfg { fix_ctrl : bool; fix_mod : bool; fix_arg : bool }.
-Definition orig : cfg := mkCfg false false false.
-Definition fixed : cfg := mkCfg true true true.
+Record cfg := mkCfg { fix_ctrl : bool; fix_mod : bool; fix_arg : bool; fix_meas : bool; fix_adjpass : bool }.
+Definition orig : cfg := mkCfg false false false false false.
+(* the tree after the first three fixes (before C07-measurement-passthrough / C07-adjacent-gates-passthrough) *)
+Definition stage2 : cfg := mkCfg true true true false false.
+Definition fixed : cfg := mkCfg true true true true true.
 
 Definition swap_gates : list string :=
   ["SWAP"; "ISWAP"; "SQRTISWAP"; "SQRTSWAP"; "BERKELEY"; "SWAPalpha"].
@@ -197,13 +204,45 @@ Definition adj1 (c : cfg) (g : gate) : option (list gate) :=
       forward (SWg n (if fix_arg c then garg g else None)) s e
     | _ => None
     end
-  else None.
+  else if fix_adjpass c then Some [g] else None.
 
 Fixpoint adjacent_gates (c : cfg) (gs : list gate) : option (list gate) :=
   match gs with
   | [] => Some []
   | g :: r => obind (adj1 c g) (fun o => option_map (app o) (adjacent_gates c r))
   end.
+
+(* ---- circuits with measurements ---------------------------------------------------------- *)
+(* `qc.gates` holds Gate and Measurement objects.  A Measurement has a name, targets and a
+   classical_store; the routers only look at its name (never "CNOT", ... for a Measurement built
+   by add_measurement, but the model does not assume that: see is_meas_name in the theorems). *)
+Inductive op :=
+| OG (g : gate)
+| OM (name : string) (targets : list Z) (cstore : option Z).
+
+(* what `qc_t.add_gate(measurement)` builds: Gate(name=<the Measurement object>, targets=None, ...);
+   the harness prints a non-string name as "obj:<type name>" *)
+Definition wrapped_measurement : gate := mkGate "obj:Measurement" [] [] None.
+
+(* to_chain_structure on a gate list with measurements.  A Measurement reaches the final `else`
+   branch (its name is not one of the eight routed names); there the unchanged tree calls
+   add_gate, the fixed tree appends the object. *)
+Fixpoint route_ops (c : cfg) (tp : topo) (N : Z) (ops : list op) : option (list op) :=
+  match ops with
+  | [] => Some []
+  | OG g :: r => obind (route1 c tp N g) (fun o => option_map (app (map OG o)) (route_ops c tp N r))
+  | OM n t s :: r =>
+    if is_ctrl n || is_swapk n then None   (* not modelled: a measurement named like a routed gate *)
+    else option_map (cons (if fix_meas c then OM n t s else OG wrapped_measurement)) (route_ops c tp N r)
+  end.
+
+Definition is_meas (o : op) : bool := match o with OM _ _ _ => true | OG _ => false end.
+Definition op_gates (ops : list op) : list gate :=
+  flat_map (fun o => match o with OG g => [g] | OM _ _ _ => [] end) ops.
+
+(* adjacent_gates refuses (NotImplementedError) every circuit that contains a measurement *)
+Definition adjacent_ops (c : cfg) (ops : list op) : option (list op) :=
+  if existsb is_meas ops then None else option_map (map OG) (adjacent_gates c (op_gates ops)).
 
 (* ---- the predicates of the property ------------------------------------------------------ *)
 Definition qubits (g : gate) : list Z := gcontrols g ++ gtargets g.
@@ -286,3 +325,10 @@ Definition track (l : list gate) : option gate :=
 Definition enc (g : gate) : string * list Z * list Z * option Z :=
   (gname g, gtargets g, gcontrols g, garg g).
 Definition enc_out (o : option (list gate)) := option_map (map enc) o.
+
+Definition enc_op (o : op) : string * list Z * list Z * option Z :=
+  match o with
+  | OG g => enc g
+  | OM n t s => ("M:" ++ n, t, [], s)
+  end.
+Definition enc_ops_out (o : option (list op)) := option_map (map enc_op) o.
